@@ -22,6 +22,7 @@ type bus struct {
 	subs    map[string][]frugal.FAsyncCallback
 	results []error
 	frames  int
+	discard bool // concurrent phase: callback results are not attributed
 }
 
 func newBus() *bus { return &bus{subs: map[string][]frugal.FAsyncCallback{}} }
@@ -46,7 +47,9 @@ func (p *busPub) Publish(topic string, data []byte) error {
 	for _, cb := range cbs {
 		err := cb(&thrift.TMemoryBuffer{Buffer: bytes.NewBuffer(append([]byte(nil), data[4:]...))})
 		p.b.mu.Lock()
-		p.b.results = append(p.b.results, err)
+		if !p.b.discard {
+			p.b.results = append(p.b.results, err)
+		}
 		p.b.mu.Unlock()
 	}
 	return nil
@@ -124,75 +127,85 @@ func (mon *monitor) runScope(cfg *config) {
 	subChain := chain(cfg.SubProv, cfg.SubCtor)
 	mon.run.Eval(1)
 	for _, op := range []scopeOp{{"Sent", "tok"}, {"Sent", "fail-1"}, {"Num", "tok"}, {"Num", "fail-2"}, {"Ping", "tok"}, {"Ping", "fail-3"}} {
-		pm, sm := "publish"+op.Name, "subscribe"+op.Name
-		var req interface{}
-		if op.Name == "Sent" {
-			req = payload(op.Token)
-		} else {
-			req = &base.Thing{AnID: 8, AString: op.Token, At: 5}
-		}
-		pargs := []interface{}{req}
-		if op.Name != "Ping" {
-			pargs = []interface{}{user, req}
-		}
-		// expected
-		var exp []event
-		a := foldIn(&exp, pubChain, pm, pargs)
-		wire := a[len(a)-1]
-		sa := foldIn(&exp, subChain, sm, []interface{}{wire})
-		exp = append(exp, event{"callback", "call", sm, renderList(sa)})
-		sres := subscriberFn(op.Name, cfg.Errorable, sa)
-		sres = foldOut(&exp, subChain, sm, sres)
-		wantCallback := renderErr(resErr(sres))
-		pres := foldOut(&exp, pubChain, pm, []interface{}{nil}) // Publish itself succeeded
-		wantCaller := renderList(pres)
-
-		// observed
-		tr.take()
-		b.mu.Lock()
-		b.results = nil
-		b.mu.Unlock()
-		ctx := frugal.NewFContext("")
-		var perr error
-		switch op.Name {
-		case "Sent":
-			perr = epub.PublishSent(ctx, user, req.(*mainsvc.Payload))
-		case "Num":
-			perr = epub.PublishNum(ctx, user, req.(*base.Thing))
-		default:
-			perr = ppub.PublishPing(ctx, req.(*base.Thing))
-		}
-		act := tr.take()
-		b.mu.Lock()
-		results := append([]error(nil), b.results...)
-		b.mu.Unlock()
-		call := pm + "/" + op.Token
-		mon.run.Add("publishes", 1)
-		mon.run.Add("deliveries", len(results))
-		mon.run.Add("trace_events", len(act))
-		mon.run.Distinct(cfg.shape(call))
-		ok := mon.j.compare(cfg, call, "publish+deliver", specs, exp, act)
-		if ok {
-			if got := renderList([]interface{}{errI(perr)}); got != wantCaller {
-				mon.run.Violation("C16:caller-results:publish", "the publishing caller observes a result other than what the outermost publisher middleware returned",
-					map[string]interface{}{"configuration": cfg, "call": call, "expected": wantCaller, "observed": got, "observed_trace": evStrings(act)})
-				ok = false
-			}
-			if len(results) != 1 {
-				mon.run.Violation("C16:callback-result:deliver", fmt.Sprintf("the subscriber transport's callback ran %d times for one publish", len(results)),
-					map[string]interface{}{"configuration": cfg, "call": call, "observed_trace": evStrings(act)})
-				ok = false
-			} else if got := renderErr(results[0]); got != wantCallback {
-				mon.run.Violation("C16:callback-result:deliver", "the generated subscriber callback returns to the transport something other than what the outermost subscriber middleware returned",
-					map[string]interface{}{"configuration": cfg, "call": call, "expected": wantCallback, "observed": got, "observed_trace": evStrings(act)})
-				ok = false
-			}
-		}
-		if ok {
-			mon.run.Add("calls_conforming", 1)
-			if len(act) > 8 {
-				mon.run.Sample(map[string]interface{}{"configuration": cfg, "call": call, "trace": evStrings(act)})
-			}
+		ok, act := mon.scopeJudge(cfg, tr, b, op, user, epub, ppub, pubChain, subChain, specs, cfg.Errorable, "publish+deliver")
+		mon.run.Distinct(cfg.shape("publish" + op.Name + "/" + op.Token))
+		if ok && len(act) > 8 {
+			mon.run.Sample(map[string]interface{}{"configuration": cfg, "call": "publish" + op.Name + "/" + op.Token, "trace": evStrings(act)})
 		}
 	}
+}
+
+// scopeJudge publishes one message through the generated publishers on bus b
+// and judges the trace (publisher chain, delivery through the subscriber
+// chain, callback), what the publishing caller gets and what the generated
+// subscriber callback returns to the transport.
+func (mon *monitor) scopeJudge(w interface{}, tr *tracer, b *bus, op scopeOp, user string, epub mainsvc.EventsPublisher, ppub mainsvc.PlainPublisher,
+	pubChain, subChain []*mwSpec, specs map[string]*mwSpec, errorable bool, class string) (bool, []event) {
+	pm, sm := "publish"+op.Name, "subscribe"+op.Name
+	var req interface{}
+	if op.Name == "Sent" {
+		req = payload(op.Token)
+	} else {
+		req = &base.Thing{AnID: 8, AString: op.Token, At: 5}
+	}
+	pargs := []interface{}{req}
+	if op.Name != "Ping" {
+		pargs = []interface{}{user, req}
+	}
+	// expected
+	var exp []event
+	a := foldIn(&exp, pubChain, pm, pargs)
+	wire := a[len(a)-1]
+	sa := foldIn(&exp, subChain, sm, []interface{}{wire})
+	exp = append(exp, event{"callback", "call", sm, renderList(sa)})
+	sres := subscriberFn(op.Name, errorable, sa)
+	sres = foldOut(&exp, subChain, sm, sres)
+	wantCallback := renderErr(resErr(sres))
+	pres := foldOut(&exp, pubChain, pm, []interface{}{nil}) // Publish itself succeeded
+	wantCaller := renderList(pres)
+
+	// observed
+	tr.take()
+	b.mu.Lock()
+	b.results = nil
+	b.mu.Unlock()
+	ctx := frugal.NewFContext("")
+	var perr error
+	switch op.Name {
+	case "Sent":
+		perr = epub.PublishSent(ctx, user, req.(*mainsvc.Payload))
+	case "Num":
+		perr = epub.PublishNum(ctx, user, req.(*base.Thing))
+	default:
+		perr = ppub.PublishPing(ctx, req.(*base.Thing))
+	}
+	act := tr.take()
+	b.mu.Lock()
+	results := append([]error(nil), b.results...)
+	b.mu.Unlock()
+	call := pm + "/" + op.Token
+	mon.run.Add("publishes", 1)
+	mon.run.Add("deliveries", len(results))
+	mon.run.Add("trace_events", len(act))
+	ok := mon.j.compare(w, call, class, specs, exp, act)
+	if ok {
+		if got := renderList([]interface{}{errI(perr)}); got != wantCaller {
+			mon.run.Violation("C16:caller-results:"+class, "the publishing caller observes a result other than what the outermost publisher middleware returned",
+				map[string]interface{}{"configuration": w, "call": call, "expected": wantCaller, "observed": got, "observed_trace": evStrings(act)})
+			ok = false
+		}
+		if len(results) != 1 {
+			mon.run.Violation("C16:callback-result:"+class, fmt.Sprintf("the subscriber transport's callback ran %d times for one publish", len(results)),
+				map[string]interface{}{"configuration": w, "call": call, "observed_trace": evStrings(act)})
+			ok = false
+		} else if got := renderErr(results[0]); got != wantCallback {
+			mon.run.Violation("C16:callback-result:"+class, "the generated subscriber callback returns to the transport something other than what the outermost subscriber middleware returned",
+				map[string]interface{}{"configuration": w, "call": call, "expected": wantCallback, "observed": got, "observed_trace": evStrings(act)})
+			ok = false
+		}
+	}
+	if ok {
+		mon.run.Add("calls_conforming", 1)
+	}
+	return ok, act
 }
